@@ -156,10 +156,10 @@ impl Shim {
             self.logln(&format!("O {}", esc(bytes)));
         }
         self.logln(&format!("X {code} {}", esc(stderr_text.as_bytes())));
-        let delay = std::env::var("SHIM_DELAY_MS").unwrap_or_else(|_| "80".into());
+        let delay = std::env::var("SHIM_DELAY_MS").unwrap_or_else(|_| "20".into());
         let hex: String = bytes.iter().map(|b| format!("{b:02x}")).collect();
         let me = std::env::current_exe().expect("current_exe");
-        let _ = Command::new(me).args(["--shim-emit", &hex, &delay]).stdin(Stdio::null()).stdout(Stdio::inherit()).stderr(Stdio::null()).spawn();
+        let _ = Command::new(me).args(["--shim-emit", &hex, &delay, &std::process::id().to_string()]).stdin(Stdio::null()).stdout(Stdio::inherit()).stderr(Stdio::null()).spawn();
         std::process::exit(code);
     }
 }
@@ -276,6 +276,9 @@ fn fault(kind: &str, real: &[u8]) -> (Vec<u8>, After) {
                 "6" => b")(\n",
                 "7" => b"\x00\x01\x7f\n",
                 "8" => b"(unsupported)\n",
+                "10" => b"((a \"a string literal\"))\n",
+                "11" => b"((a b c))\n",
+                "12" => b"(((a b)))\n",
                 _ => b"success\n",
             };
             (v.to_vec(), After::Continue)
@@ -350,11 +353,25 @@ fn response_kind(line: &str) -> Option<&'static str> {
     }
 }
 
+fn my_ppid() -> u32 {
+    let txt = std::fs::read_to_string("/proc/self/stat").unwrap_or_default();
+    match txt.rfind(')') {
+        Some(i) => txt[i + 1..].split_whitespace().nth(1).and_then(|v| v.parse().ok()).unwrap_or(0),
+        None => 0,
+    }
+}
+
 fn main() {
     let argv: Vec<String> = std::env::args().collect();
-    if argv.len() >= 4 && argv[1] == "--shim-emit" {
+    if argv.len() >= 5 && argv[1] == "--shim-emit" {
+        // emitter: wait until the shim that started us is gone (we get re-parented), then write
         let bytes: Vec<u8> = (0..argv[2].len() / 2).map(|i| u8::from_str_radix(&argv[2][2 * i..2 * i + 2], 16).unwrap_or(b'?')).collect();
-        std::thread::sleep(std::time::Duration::from_millis(argv[3].parse().unwrap_or(80)));
+        let parent: u32 = argv[4].parse().unwrap_or(0);
+        let t0 = std::time::Instant::now();
+        while my_ppid() == parent && t0.elapsed() < std::time::Duration::from_secs(20) {
+            std::thread::sleep(std::time::Duration::from_millis(2));
+        }
+        std::thread::sleep(std::time::Duration::from_millis(argv[3].parse().unwrap_or(20)));
         let mut o = std::io::stdout();
         let _ = o.write_all(&bytes);
         let _ = o.flush();
